@@ -165,6 +165,13 @@ def keyDoc (ctx : Ctx) (k : PyVal) (viaPPV : Doc) : Doc :=
   | .str cls isBytes s => Doc.pstr { s := s, isBytes := isBytes, strategy := 3, ppIndent := ctx.indent, cls := cls }
   | _ => viaPPV
 
+/-- does pretty_python_value wrap this value's document in a comment annotation?  (innermost non-empty comment wrapper) -/
+def commentOf : PyVal → Option PS → Option PS
+  | .commented v t, _ => commentOf v (some t)
+  | .trailing v _, c => commentOf v c
+  | _, c => c
+def hasComment (v : PyVal) : Bool := (nonEmpty? (commentOf v Option.none)).isSome
+
 def wrapC (c : Option PS) (doc : Doc) : Doc :=
   match nonEmpty? c with
   | some t => .ann (.comment t) doc
@@ -295,7 +302,8 @@ def dictDocs (ctx : Ctx) : List (PyVal × PyVal) → List PairDocs
   | [] => []
   | (k, v) :: r =>
     (k, keyDoc ctx k (toDocW ctx.nested k Option.none Option.none), toDocW (ctx.nested.withStrategy 2) v Option.none Option.none,
-        toDocW (ctx.nested.withStrategy 0) v Option.none Option.none) :: dictDocs ctx r
+        -- the value is rendered a second time only when it carries a comment (prettyprinter.py:1421-1451)
+        (if hasComment v then toDocW (ctx.nested.withStrategy 0) v Option.none Option.none else .nil)) :: dictDocs ctx r
 end
 
 def toDoc (ctx : Ctx) (v : PyVal) : Doc := toDocW ctx v Option.none Option.none
